@@ -113,6 +113,7 @@ pub fn gen_cov_case(rng: &mut Rng, tier: &str, prop: &str) -> Case {
             "bin_size" => bin_size,
             "bin_count" => match rng.weighted(&[20, 50, 30]) { 0 => 1, 1 => rng.usize(2, 6), _ => rng.usize(7, 24) },
             "order" => if rng.chance(1, 2) { 0 } else { rng.range(1, 1 << 40) },
+            "stale" => if rng.chance(1, 8) { rng.range(1, 1 << 40) } else { 0 },
         },
         extra,
     }
@@ -218,6 +219,9 @@ impl Engine for C08 {
             .map(|e| write_input(&dir, "alt", &e.records, &e.container));
         let out_dir = dir.join("out");
         std::fs::create_dir_all(&out_dir).unwrap();
+        if stale_output(&out_dir.join("kmers.vectors"), case.params.get("stale").and_then(|v| v.as_u64()).unwrap_or(0)) {
+            out.probe("stale_output_file", 1);
+        }
         let r = run_cov(
             &in_path,
             alt_path.as_deref(),
@@ -270,7 +274,7 @@ impl Engine for C08 {
     }
 
     fn required_probes(&self) -> Vec<&'static str> {
-        vec![
+        vec!["stale_output_file", 
             "flush_per_record",
             "single_batch",
             "separate_counting_input",
